@@ -32,6 +32,7 @@ func run(c *fw.Ctx) {
 	bodyFaults(c)
 	tcpAborts(c)
 	fsx.Interference(c, mon)
+	cancelMatrix(c)
 }
 
 // --- (b) conditional requests that must fail --------------------------------
@@ -396,6 +397,17 @@ func init() {
 		Level: "fault_enumeration",
 		Run:   run,
 		Replay: func(c *fw.Ctx, w json.RawMessage) {
+			var cprobe struct {
+				Cancel *cancelCase `json:"cancel"`
+			}
+			if json.Unmarshal(w, &cprobe) == nil && cprobe.Cancel != nil {
+				e, err := fsx.NewEnv(c, mon, "replay")
+				if err == nil {
+					defer e.Close()
+					execCancel(c, e, *cprobe.Cancel)
+				}
+				return
+			}
 			var probe struct {
 				Case *faultCase `json:"case"`
 			}
@@ -409,7 +421,7 @@ func init() {
 			}
 			fsx.ReplayWitness(c, mon, w)
 		},
-		Rule: "every request of the C01 exploration (385 trees x all single requests, plus random histories) with a directory snapshot before/after: status>=400 => names, kinds and file bytes unchanged; plus 486 conditional PUT/DELETE combinations, plus a PUT body-fault matrix (body reader failing after k bytes for every k of lengths {0,1,5,4097} (thorough: +70000 on 4 KiB boundaries +-1) x {absent, existing other content, existing same length} x {no header, If-Match current} x 2 error kinds), plus uploads aborted over real TCP. " +
+		Rule: "every request of the C01 exploration (385 trees x all single requests, plus random histories) with a directory snapshot before/after: status>=400 => names, kinds and file bytes unchanged; plus 486 conditional PUT/DELETE combinations, plus a PUT body-fault matrix (body reader failing after k bytes for every k of lengths {0,1,5,4097} (thorough: +70000 on 4 KiB boundaries +-1) x {absent, existing other content, existing same length} x {no header, If-Match current} x 4 error kinds), plus uploads aborted over real TCP, plus a cancellation matrix: ~260 requests (COPY/MOVE over source x destination kind x Overwrite x Depth, DELETE, MKCOL, PUT, PROPFIND, GET on one mixed tree) each run with a context that reports cancelled from its k-th look (Err/Done call) on, for every k up to the number of looks the request makes (k = 0: cancelled before the handler starts). " +
 			"distinct_nontrivial counts distinct (method, abstract request/tree class, refusal status) and fault-matrix cells that ended >= 400.",
 		Assumptions: []string{
 			"a response that was never produced (connection gone) carries no obligation; 1xx/2xx/3xx responses carry none either",
